@@ -485,6 +485,14 @@ func c13TaintConfig(p *Prog) *TaintConfig {
 				}
 			case modPath + "/private/pkg/filepathext":
 				return "passed to filepathext." + callee.Name() + " before validation"
+			case modPath + "/private/pkg/normalpath":
+				switch callee.Name() {
+				case "Normalize", "Unnormalize", "NewError", "NormalizeAndValidate":
+					return ""
+				}
+				// lexical processing (Join, Rel, StripComponents, Dir, Base, EqualsOrContainsPath …) of a value that was
+				// not validated yet: a later validation sees a different string than the one the caller supplied
+				return "passed to normalpath." + callee.Name() + " before validation"
 			}
 			return ""
 		},
